@@ -576,6 +576,21 @@ PROPS["C08"] = {
         "Lace.C08.compile_fail_at",
         "Lace.C08.compile_unwritable",
         "Lace.C08.emitAll_fail_at",
+        "Lace.C08.compileP_all_or_nothing",
+        "Lace.C08.no_stray_entries",
+        "Lace.C08.no_new_names",
+        "Lace.C08.hard_link_other_name_unchanged",
+        "Lace.C08.old_inodes_unchanged",
+        "Lace.C08.live_link_preserved",
+        "Lace.C08.dangling_link_replaced",
+        "Lace.C08.dest_location_regular_file",
+        "Lace.C08.compileP_refines_compileFs",
+        "Lace.C08.compileP_name_refines_compileFs",
+        "Lace.C08.writeAllOrNothingP_spec",
+        "Lace.C08.compileP_spec",
+        "Lace.C08.Shape.ofPlainDir",
+        "Lace.C08.stale_tmp_link_truncates",
+        "Lace.C08.symlink_depth_counterexample",
     ],
     "needs_bin": True,
     "compare": c08_compare,
